@@ -21,7 +21,8 @@ def main():
     ids = [a for a in args if a in props] or sorted(props)
     os.makedirs(COV + "/prof", exist_ok=True); os.makedirs(ROOT + "/work/coverage", exist_ok=True)
     if not os.path.exists(BIN) or "--build" in args:
-        r = sh('CARGO_NET_OFFLINE=true RUSTFLAGS="-C instrument-coverage" CARGO_TARGET_DIR=%s/target cargo +nightly build --release --offline' % COV, cwd=ROOT + "/harness")
+        # (build scripts and proc macros are instrumented too: their profiles go to COV, not into the crate directories)
+        r = sh('LLVM_PROFILE_FILE=%s/prof/build-%%p-%%m.profraw CARGO_NET_OFFLINE=true RUSTFLAGS="-C instrument-coverage" CARGO_TARGET_DIR=%s/target cargo +nightly build --release --offline' % (COV, COV), cwd=ROOT + "/harness")
         if r.returncode: print(r.stdout[-2000:]); sys.exit(1)
     for pid in ids:
         if "--norun" not in args:
